@@ -188,7 +188,7 @@ def zx_cm(obj, name, *a, **k):
             if a and any(type(x) in (SBytes, SInt, SBool) for x in a):
                 return getattr(SBytes(list(obj)), name)(*a, **k)
     elif t is dict:
-        if a and (type(a[0]) in (SStr, SBytes, SInt) or (_tainted(obj) and name in ('get', 'pop', 'setdefault'))):
+        if a and (_symkey(a[0]) or (_tainted(obj) and name in ('get', 'pop', 'setdefault'))):
             if name == 'get':
                 for kk in obj:
                     if _dec_eq(kk, a[0]):
@@ -222,7 +222,7 @@ def zx_cm(obj, name, *a, **k):
                     return None
             raise ValueError('list.remove(x): x not in list')
     elif t is set:
-        if a and (is_sym(a[0]) or _tainted(obj)) and name in ('add', 'discard', 'remove'):
+        if a and (_symkey(a[0]) or _tainted(obj)) and name in ('add', 'discard', 'remove'):
             hit = None
             for kk in list(obj):
                 if _dec_eq(kk, a[0]):
@@ -233,7 +233,7 @@ def zx_cm(obj, name, *a, **k):
                 if name == 'add':
                     if hit is None:
                         set.add(obj, a[0])
-                        if is_sym(a[0]):
+                        if _symkey(a[0]):
                             _taint(obj)
                     return None
                 if hit is None:
@@ -250,6 +250,13 @@ def zx_cm(obj, name, *a, **k):
 
 
 HASH_OK = [False]
+
+
+def _symkey(k):
+    """a dict/set key that is symbolic, or a tuple with a symbolic member (e.g. a cache keyed by (host, family))"""
+    if type(k) is tuple:
+        return any(_symkey(x) for x in k)
+    return type(k) in (SStr, SBytes, SInt) or is_sym(k)
 _TAINT = {}      # id(container) -> container (kept alive so that ids are not reused)
 
 
@@ -266,7 +273,7 @@ def reset_taint():
 
 
 def zx_si(obj, idx, val):
-    if type(obj) is dict and (is_sym(idx) or _tainted(obj)):
+    if type(obj) is dict and (_symkey(idx) or _tainted(obj)):
         for kk in list(obj):
             if _dec_eq(kk, idx):
                 dict.__setitem__(obj, kk, val)
@@ -276,14 +283,14 @@ def zx_si(obj, idx, val):
             dict.__setitem__(obj, idx, val)
         finally:
             HASH_OK[0] = False
-        if is_sym(idx):
+        if _symkey(idx):
             _taint(obj)
         return
     obj[idx] = val
 
 
 def zx_di(obj, idx):
-    if type(obj) is dict and (is_sym(idx) or _tainted(obj)):
+    if type(obj) is dict and (_symkey(idx) or _tainted(obj)):
         for kk in list(obj):
             if _dec_eq(kk, idx):
                 HASH_OK[0] = True
@@ -303,7 +310,7 @@ def _dec_eq(a, b):
 
 def zx_in(item, cont):
     tc = type(cont)
-    if is_sym(item) or (tc in (dict, set) and _tainted(cont)):
+    if _symkey(item) or (tc in (dict, set) and _tainted(cont)):
         if tc in (dict, set, frozenset) or isinstance(cont, (type({}.keys()), type({}.values()))):
             for kk in cont:
                 if _dec_eq(kk, item):
@@ -324,7 +331,7 @@ def zx_gi(obj, idx):
     ti = type(idx)
     to = type(obj)
     if to is dict:
-        if ti in (SStr, SBytes, SInt) or _tainted(obj):
+        if ti in (SStr, SBytes, SInt) or _tainted(obj) or (ti is tuple and _symkey(idx)):
             for kk in obj:
                 if _dec_eq(kk, idx):
                     HASH_OK[0] = True
@@ -370,7 +377,7 @@ def zx_mod(a, b):
 def zx_setcomp(gen):
     out = set()
     for e in gen:
-        if is_sym(e) or _tainted(out):
+        if _symkey(e) or _tainted(out):
             zx_cm(out, 'add', e)
         else:
             out.add(e)
